@@ -65,6 +65,10 @@ pub struct Profile {
     /// intermediate signals may be declared in nested blocks under names from the pool, so a
     /// signal can shadow (or be declared beside) a variable or another signal of the same name
     pub nested_signal_decls: bool,
+    /// chance (of 256) that a scalar re-assignment has the form `x = x <op> e` (loop-carried updates)
+    pub self_update_bias: u32,
+    /// chance (of 256) that an expression slot becomes a helper call when helpers exist
+    pub call_bias: u32,
 }
 
 #[derive(Clone, Debug)]
@@ -105,6 +109,8 @@ impl Profile {
             poly_bias: 0,
             no_intermediate: false,
             nested_signal_decls: false,
+            self_update_bias: 0,
+            call_bias: 0,
         }
     }
     pub fn sem(template: bool, prime: BigUint) -> Profile {
@@ -136,6 +142,8 @@ impl Profile {
             poly_bias: 50,
             no_intermediate: false,
             nested_signal_decls: false,
+            self_update_bias: 0,
+            call_bias: 0,
         }
     }
 }
@@ -448,7 +456,10 @@ impl<'a, 'b> Gen<'a, 'b> {
     }
 
     pub fn expr(&mut self, depth: usize) -> Expr {
-        let choice = if depth == 0 { self.t.below(3) } else { self.t.below(10) };
+        let mut choice = if depth == 0 { self.t.below(3) } else { self.t.below(10) };
+        if depth > 0 && self.p.call_bias > 0 && !self.p.helpers.is_empty() && self.t.chance(self.p.call_bias) {
+            choice = 9;
+        }
         match choice {
             0 => self.literal(),
             1 | 2 => {
@@ -668,7 +679,15 @@ impl<'a, 'b> Gen<'a, 'b> {
                     }
                     2 => Stmt::IncDec { id, name: v.name.clone(), access: vec![], inc: self.t.chance(160) },
                     _ => {
-                        let (rhs, d) = self.expr_tracked(2);
+                        let (rhs, d) = if was_assigned && self.p.self_update_bias > 0 && self.t.chance(self.p.self_update_bias) {
+                            let op = self.infix_op();
+                            let (e, d) = self.expr_tracked(1);
+                            let me = Expr::Var { id: self.ids.next(), name: v.name.clone(), access: vec![] };
+                            let (l, r) = if self.t.chance(200) { (me, e) } else { (e, me) };
+                            (Expr::Infix { id: self.ids.next(), op, l: Box::new(l), r: Box::new(r) }, d)
+                        } else {
+                            self.expr_tracked(2)
+                        };
                         self.taint(v.key, d);
                         let lhs = Expr::Var { id: self.ids.next(), name: v.name.clone(), access: vec![] };
                         Stmt::Assign { id, lhs, op: AssignOp::Var, rhs, reversed: false }
